@@ -83,6 +83,37 @@ def late_waiter_case(rng):
             "outcome": outcome, "triggers": trig}
 
 
+def loop_never_ending_item_case(rng):
+    """A loop one of whose items never ends by itself, while the run's result is decided elsewhere: the output is ready from
+    another step, or another step's failure makes every output impossible. The run must return and take the loop down."""
+    from ..model import Step
+    sub = gen.sub_program("sub.yaml", rng.choice([1, 2]))
+    n = rng.choice([1, 2, 4])
+    loop = Step("loop", "foreach", sub=sub, items=Expr(In("items")), parallelism=rng.choice([1, 2, 4]))
+    q = gen.plugin_step("q", Expr(In("tag")))
+    steps = [loop, q]
+    ending = rng.choice(["output-ready", "output-impossible", "needs-loop-and-failed-step"])
+    outcome = {}
+    if ending == "output-ready":
+        outs = {"success": {"q": gen.tagref("q")}}
+    elif ending == "output-impossible":
+        outs = {"success": {"q": gen.tagref("q")}}
+        outcome["q"] = rng.choice(["error", "crash", "deployfail"])
+    else:
+        outs = {"success": {"q": gen.tagref("q"), "d": Expr(Ref("loop", "outputs", "success", "data"))}}
+        outcome["q"] = rng.choice(["error", "crash"])
+    rng.shuffle(steps)
+    scripts = gen.make_scripts(steps, outcome)
+    hang_at = rng.randrange(n)
+    last_src = "sub_w%d" % (len(sub.steps) - 1)
+    tag = "i%d" % hang_at
+    for k in range(len(sub.steps) - 1):
+        tag = "sub_w%d(%s)" % (k, tag)
+    scripts[last_src]["exec_by_tag"] = {tag: {"outcome": "hang", "on_cancel": rng.choice(["error", "success"])}}
+    prog = Program(steps, outs, gen.BASE_INPUT)
+    return {"program": prog, "scripts": scripts, "input": {"tag": "T1", "items": [{"tag": "i%d" % k} for k in range(n)]}, "shape": "loop-with-never-ending-item/%s/n=%d" % (ending, n), "outcome": dict(outcome, loop="item %d never ends" % hang_at)}
+
+
 def run(check):
     n = check.pick(400, 6000)
     check.rule = ("generated workflow programs (all shapes of vlib.gen incl. fan-in up to 45 producers) x outcome vectors "
@@ -104,7 +135,9 @@ def run(check):
             g = late_waiter_case(rng)
             if g["triggers"]:
                 opts["triggers"] = g["triggers"]
-        elif r < 0.30:
+        elif r < 0.22:
+            g = loop_never_ending_item_case(rng)
+        elif r < 0.40:
             k = rng.choice([2, 7, 19, 20, 21, 22, 25, 33, 45])
             g = fan_in_case(rng, k, rng.choice(["all-fail", "all-error", "first-fail", "last-fail", "mixed", "one-hangs-rest-fail"]))
         else:
